@@ -64,6 +64,15 @@ def llrOfRatios (opa : F) (N : Nat) (ns : F) (Rs : List F) : F :=
 def nUnstable (opa : F) (N : Nat) (ns : F) (Rs : List F) : Nat :=
   (Rs.filter (fun R => !(decide (opa - 1 < ns * xOfRatio N R)))).length
 
+/-- `TrialDataManager.initialize_trial`: `(n_events, n_selected_events, n_pure_bkg_events)`.
+`n_events` defaults to the number of *raw* events, taken **before** the event selection, so `N` is
+kept when a selection drops events; `n_pure_bkg_events = n_events - n_selected_events`. -/
+def trialCounts (nEventsArg : Option Nat) (nRaw nSel : Nat) : Nat × Nat × Int :=
+  let N := match nEventsArg with
+    | some n => n
+    | none => nRaw
+  (N, nSel, (N : Int) - (nSel : Int))
+
 /-- `SigOverBkgPDFRatio.get_ratio` for one value: `s/b` where the background density is positive,
 `zero_bkg_ratio_value` elsewhere -/
 def ratioSOB (zeroBkg s b : F) : F := if 0 < b then s / b else zeroBkg
